@@ -308,7 +308,7 @@ def r7_materials(idx, r):
         raise AnalysisError(f"only {n} linearExpansionPercent implementations found")
 
 
-def r8_none_tests(idx, r):
+def r8_none_tests(idx, r, modules=None, floor=100):
     """0 degrees C (and 0 K) are temperatures. An optional temperature argument (default None) may only be
     compared with None; evaluating it for truth (`Tc or default`, `if not Tc`) treats an explicit 0.0 as absent."""
     from ..astutil import optional_params, truthiness_uses
@@ -317,6 +317,8 @@ def r8_none_tests(idx, r):
     n = 0
     for m in idx.modules.values():
         if not m.name.startswith("armi.") or ".tests" in m.name:
+            continue
+        if modules is not None and not m.name.startswith(modules):
             continue
         for f in m.all_funcs():
             opt = optional_params(f.node) & TEMPS
@@ -331,7 +333,7 @@ def r8_none_tests(idx, r):
                           "and another temperature is used instead; compare with `is None`", node=u)
             else:
                 r.ok(key, f)
-    if n < 100:
+    if n < floor:
         raise AnalysisError(f"only {n} functions with optional temperature arguments found")
 
 
